@@ -469,6 +469,58 @@ func ruleC10(w *World) {
 			w.check(a.bad == "", rule, k, a.pos, fmt.Sprintf("holds on all %d explored transitions", a.n), a.bad)
 		}
 	}
+	// R3b lock-step lemma for the per-dealer instances of Joint-Feldman: the phase of an instance — (running,
+	// sharesTimeout, complaintsTimeout) — moves only in Start / NextTimeout / End, and what NextTimeout does to it and
+	// whether it is refused is a function of the phase alone (not of the verdict, complaints, role, …). All instances are
+	// started together and driven by the same joint calls, so they are always in the same phase: if one refuses a
+	// timeout, the first one did, before any effect.
+	if ts := d.systems(w)["qual"]; ts != nil {
+		type ph struct{ r, s, c int }
+		outcome := map[ph]map[string]bool{}
+		moved := ""
+		for i := range ts.trans {
+			t := &ts.trans[i]
+			from := ph{t.From["running"], t.From["sharesTimeout"], t.From["complaintsTimeout"]}
+			to := ph{t.Out.Post["running"], t.Out.Post["sharesTimeout"], t.Out.Post["complaintsTimeout"]}
+			switch t.Method {
+			case "NextTimeout":
+				e := errOf(t.Out)
+				cls := "accepted"
+				if isStateErr(e) {
+					cls = "refused"
+				} else if e != "nil" {
+					cls = "error:" + e
+				}
+				if outcome[from] == nil {
+					outcome[from] = map[string]bool{}
+				}
+				outcome[from][fmt.Sprintf("%s→{running:%d sharesTimeout:%d complaintsTimeout:%d}", cls, to.r, to.s, to.c)] = true
+			case "Start", "End":
+			default:
+				if from != to && moved == "" {
+					moved = fmt.Sprintf("%s changes the phase %v → %v (%s)", t.Method, from, to, ts.witness(t.From))
+				}
+			}
+		}
+		bad := moved
+		n := 0
+		for f, o := range outcome {
+			n++
+			if len(o) != 1 && bad == "" {
+				var alts []string
+				for k := range o {
+					alts = append(alts, k)
+				}
+				sort.Strings(alts)
+				bad = fmt.Sprintf("NextTimeout from phase {running:%d sharesTimeout:%d complaintsTimeout:%d} has %d different outcomes depending on other state: %s — per-dealer instances of Joint-Feldman can fall out of step, so a joint call may be refused after some instances already acted", f.r, f.s, f.c, len(o), strings.Join(alts, " | "))
+			}
+		}
+		if n == 0 {
+			w.undecided("C10.R3", "qual/NextTimeout/lock-step", token.NoPos, "no NextTimeout transition explored")
+		} else {
+			w.check(bad == "", "C10.R3", "qual/NextTimeout/lock-step", ts.methods["NextTimeout"].Pos(), fmt.Sprintf("phase transitions are a function of the phase alone (%d phases) and only Start/NextTimeout/End move the phase", n), bad)
+		}
+	}
 	// Joint-Feldman: its own running flag guards every delegation; per-path rule on the SSA
 	w.ruleJointGuards("C10.R1", d)
 	// R5 range before index / narrowing for the int parameters of the API methods
